@@ -73,6 +73,14 @@ where
     R: Rng + ?Sized,
 {
     assert!(!bound.is_zero());
+    #[cfg(feature = "verif-hooks")]
+    if let Some(crate::dp::distributions::verif::Answer::Nat(answer)) =
+        crate::dp::distributions::verif::intercept(
+            crate::dp::distributions::verif::Call::UniformBelow(bound.clone()),
+        )
+    {
+        return answer;
+    }
     let bits = bound.bits();
     loop {
         let n = random_biguint(rng, bits);
